@@ -56,7 +56,10 @@ def fault_workload(args):
                 out["runs"] += 1
                 out["kinds"][cls + ("-short" if short else "")] += 1
                 pl = p2.splitlines()
-                errs = [i for i in sorted(o) if o[i].startswith("err") and is_write_line(pl[i - 1].split())]
+                # the failing call is a write operation, or a background worker tick (`step` / `drain`: the journal writer's
+                # position query flushes its buffer) — a worker error poisons the database just the same
+                errs = [i for i in sorted(o) if o[i].startswith("err") and
+                        (is_write_line(pl[i - 1].split()) or pl[i - 1].split()[0] in ("step", "drain"))]
                 faulted = any("E5" in e["ret"] or "E28" in e["ret"] for e in C.read_log(wd))
                 if not faulted:
                     continue
@@ -113,7 +116,9 @@ def racing_writers(args):
     ia = len(L) - 1
     b = {"batch": "batch - h0:p:64:04 h1:p:64:04", "put": "put h1 64 04", "tx": "tx t1 commit", "clear": "clear h1",
          "persist": "persist all"}[bkind]
-    L += ["thread b %s &" % b, "thread c put h1 65 05 &", "sleep 1600", "put h0 66 06", "batch - h1:p:67:07", "exit 0"]
+    # barriers: a synchronous read on each thread returns only after that thread's asynchronous write has returned
+    L += ["thread b %s &" % b, "thread c put h1 65 05 &", "thread a has - h1 00", "thread b has - h1 00", "thread c has - h1 00",
+          "put h0 66 06", "batch - h1:p:67:07", "exit 0"]
     ib = ia + 2
     prog = "\n".join(L) + "\n"
     wd = workdir()
@@ -155,18 +160,19 @@ def run(rep, tier, seed, build):
     n = 20 if tier == "quick" else 300
     results = pmap(fault_workload, [(i, seed, tier) for i in range(n)])
     races = RACES if tier != "quick" else [x for i, x in enumerate(RACES) if (i + seed) % 5 == 0]
-    rr = pmap(racing_writers, races, workers=8)
+    from common import pmap_confirm
+    rr, unconf = pmap_confirm(racing_writers, races, lambda x: bool(x["problems"]), workers=8)
     for x in [x for x in rr if x["problems"]][:2]:
         rep.violation("# C13: writers queued on the journal lock while another writer's append fails: %s\n"
                       "# shim: FJSHIM_FAULT_AT=1 FJSHIM_FAULT_CLASS=write FJSHIM_FAULT_PATH=.jnl FJSHIM_FAULT_DELAY_MS=700\n%s"
-                      % (x["problems"][0], "\n".join(l[:200] for l in x["prog"].splitlines())))
+                      % (x["problems"][0], x["prog"]))
     bad = [r_ for r_ in results if r_["problems"]]
     for r_ in bad[:3]:
         p = r_["problems"][0]
         rep.violation("# C13: %s — fault class=%s on the %s-th matching journal call (short write: %s)\n# %s\n# after reopen: %s\n"
                       "# allowed: %s\n# workload (shim: FJSHIM_FAULT_AT=%s FJSHIM_FAULT_CLASS=%s FJSHIM_FAULT_PATH=.jnl):\n%s"
                       % (p[0], p[1], p[2], p[3], p[4], p[5], p[6], p[2], p[1],
-                         "\n".join(l[:200] for l in r_["prog"].splitlines())))
+                         r_["prog"]))
     runs = sum(r_["runs"] for r_ in results)
     kinds, surf = collections.Counter(), collections.Counter()
     for r_ in results:
@@ -180,7 +186,7 @@ def run(rep, tier, seed, build):
                              "checked: the operation reports an error, no later write is acknowledged, and after exit (with and without "
                              "clean drop) reopen yields the acknowledged prefix or that plus the complete failed operation",
                         samples=[r_["sample"] for r_ in results if r_.get("sample")][:3], workloads=n, fault_points=runs,
-                        racing_writer_schedules=len(rr), racing_writer_schedules_effective=sum(1 for x in rr if x["effective"]),
+                        racing_writer_schedules=len(rr), unconfirmed_alarms=unconf, racing_writer_schedules_effective=sum(1 for x in rr if x["effective"]),
                         fault_kind_histogram=dict(kinds), error_surface_histogram=dict(surf), disagreements_checked=len(bad),
                         partial_theorems=THEOREMS, partial_theorems_discharged=dis, partial_theorem_problems=pproblems)
     if pproblems and not rep.violations:
